@@ -185,6 +185,39 @@ func sortedNodes(ns []schema.Node) []schema.Node {
 	return out
 }
 
+// hiddenByChoice: the names of the data children of n that sit (at any depth of choices and cases) below a choice or
+// case which the pruning predicate rejects: they go with it, whatever the predicate says about them.
+func (d *dumper) hiddenByChoice(n interface{ Choices() []schema.Node }) map[string]bool {
+	if d.o.Prune == nil {
+		return nil
+	}
+	hidden := map[string]bool{}
+	var walk func(x schema.Node, h bool)
+	walk = func(x schema.Node, h bool) {
+		h = h || !d.o.Prune(x)
+		for _, c := range x.Children() {
+			switch c.(type) {
+			case schema.Choice, schema.Case:
+				walk(c, h)
+			default:
+				if h {
+					hidden[c.Name()] = true
+				}
+			}
+		}
+		for _, c := range x.Choices() {
+			switch c.(type) {
+			case schema.Choice, schema.Case:
+				walk(c, h)
+			}
+		}
+	}
+	for _, c := range n.Choices() {
+		walk(c, false)
+	}
+	return hidden
+}
+
 func (d *dumper) node(depth int, path string, n schema.Node) {
 	if d.o.Prune != nil && !d.o.Prune(n) {
 		return
@@ -222,8 +255,9 @@ func (d *dumper) node(depth int, path string, n schema.Node) {
 	_, isTree := n.(schema.Tree)
 	if d.o.Prune != nil && !isLeaf && !isLeafList && (isCont || isEntry || isTree) {
 		// the children that still have a default after pruning
+		hid := d.hiddenByChoice(n)
 		for _, dc := range n.Children() {
-			if d.o.Prune(dc) && hasDefaultPruned(dc, d.o.Prune) {
+			if !hid[dc.Name()] && d.o.Prune(dc) && hasDefaultPruned(dc, d.o.Prune) {
 				dn = append(dn, dc.Name())
 			}
 		}
@@ -271,8 +305,11 @@ func (d *dumper) node(depth int, path string, n schema.Node) {
 	for _, c := range n.Choices() {
 		d.choiceTree(depth+1, p, c)
 	}
+	hid := d.hiddenByChoice(n)
 	for _, c := range sortedNodes(n.Children()) {
-		d.node(depth+1, p, c)
+		if !hid[c.Name()] {
+			d.node(depth+1, p, c)
+		}
 	}
 }
 
@@ -327,8 +364,11 @@ func (d *dumper) tree(depth int, label string, t schema.Tree) {
 	for _, c := range t.Choices() {
 		d.choiceTree(depth+1, "", c)
 	}
+	hid := d.hiddenByChoice(t)
 	for _, c := range sortedNodes(t.Children()) {
-		d.node(depth+1, "", c)
+		if !hid[c.Name()] {
+			d.node(depth+1, "", c)
+		}
 	}
 }
 
